@@ -157,7 +157,7 @@ func (l *Ledger) Key() []byte {
 func (l *Ledger) sum(pred func(Lock) bool) sdk.Coins {
 	c := sdk.NewCoins()
 	for _, k := range l.Locks {
-		if pred(k) {
+		if pred(k) && k.Amt > 0 {
 			c = c.Add(sdk.NewCoin(k.Denom, sdkmath.NewInt(k.Amt)))
 		}
 	}
@@ -172,9 +172,9 @@ type World struct {
 	ModAddr   sdk.AccAddress
 	LockupKey storetypes.StoreKey
 	Vac       map[string]int64
-	Quick     bool // smaller probe lattice in the state oracle
 
 	maxQueries, sumQueries int64
+	maxEmptyDenomAcc       int64
 }
 
 func NewWorld(vac map[string]int64) *World {
@@ -342,6 +342,10 @@ func (w *World) Apply(ctx sdk.Context, l *Ledger, op Op, fail func(a, s, d strin
 			}
 			if l.find(resp.UnlockingLockID) >= 0 || resp.UnlockingLockID <= l.MaxID {
 				fail("unlock.split-id-not-fresh", "", fmt.Sprintf("split of lock %d answered with id %d which was already used (max id seen %d)", k.ID, resp.UnlockingLockID, l.MaxID))
+				break
+			}
+			if op.Amt >= k.Amt {
+				fail("unlock.split-exceeds-lock", "", fmt.Sprintf("lock %d holds %d by the ledger, a partial begin-unlock of %d was accepted and split it", k.ID, k.Amt, op.Amt))
 				break
 			}
 			l.Locks[i].Amt = k.Amt - op.Amt
@@ -541,6 +545,7 @@ type Alphabet struct {
 	Foreign    bool    `json:"foreign_begin_unlock"`
 	BadTx      bool    `json:"atomic_tx_with_failing_second_msg"`
 	UnlockAll  bool    `json:"begin_unlocking_all"`
+	SetRR      bool    `json:"set_reward_receiver"`
 	GhostProbe bool    `json:"ops_on_never_issued_id"`
 }
 
@@ -586,7 +591,9 @@ func (w *World) Enabled(al *Alphabet) func(ctx sdk.Context, l *Ledger, depth int
 			if k.Owner == "B" {
 				other = "A"
 			}
-			ops = append(ops, Op{K: "setrr", ID: k.ID, To: other})
+			if al.SetRR {
+				ops = append(ops, Op{K: "setrr", ID: k.ID, To: other})
+			}
 			if al.SetRRBack {
 				ops = append(ops, Op{K: "setrr", ID: k.ID, To: k.Owner})
 			}
